@@ -30,7 +30,7 @@ static uint64_t cb_key(void) {
 }
 static void init(void) { for (size_t i = 0; i < sizeof g_data; i++) g_data[i] = (u8)(i * 31 + 7); g_seam = (int)vx_opt_int("--seam", 0); }
 
-static void* job_thread(void* a) {
+VX_HARNESS_SHARED static void* job_thread(void* a) {
     int jobID = (int)(intptr_t)a; g_pc[jobID] = 1;
     if (g_skip[jobID]) { ZSTDMT_serialState_ensureFinished(&g_serial, (unsigned)jobID, (size_t)-1); g_pc[jobID] = 3; return NULL; }
     rawSeqStore_t none = kNullRawSeqStore; range_t src = { g_data + jobID * 64, 64 };
@@ -38,7 +38,7 @@ static void* job_thread(void* a) {
     g_pc[jobID] = 3; return NULL;
 }
 
-static void* pool_thread(void* a) {
+VX_HARNESS_SHARED static void* pool_thread(void* a) {
     int me = (int)(intptr_t)a; g_pc[me] = 1;
     buffer_t b1 = ZSTDMT_getBuffer(g_bp); ZSTD_CCtx* c1 = ZSTDMT_getCCtx(g_cp); g_pc[me] = 2;
     buffer_t b2 = ZSTDMT_getBuffer(g_bp);
